@@ -158,10 +158,15 @@ def case_job(arg):
                 opts["dds_stages"] = stages
             steps = []
             accept = [p["pkg"]]
+            how = "import"
             if pre is not None:
                 accept.append(pre["pkg"])
-                steps.append({"write": gen.render(pre), "how": "import", "modules": gen.import_order(pre), "entry": _entry(pre)})
-            steps.append({"write": gen.render(p), "how": "import", "modules": gen.import_order(p), "entry": _entry(p, opts)})
+                # an earlier evaluation in the same process; with _export_too its graph is exported as well (to another file)
+                pre_opts = {"dds_export_graph": os.path.join(td, "graph_pre.plain")} if (pre.get("_export_too") and opts) else None
+                steps.append({"write": gen.render(pre), "how": "import", "modules": gen.import_order(pre), "entry": _entry(pre, pre_opts)})
+                if pre.get("_export_too"):
+                    how = "reload"
+            steps.append({"write": gen.render(p), "how": how, "modules": gen.import_order(p), "entry": _entry(p, opts)})
             seg = {"mode": "impl", "root": root, "accept": accept, "steps": steps, "store": {"kind": store, "dir": os.path.join(td, "store_" + label)}}
             o = core.fork_call(run_segment, seg, timeout=300)
             if isinstance(o, core.JobFailed):
@@ -259,6 +264,21 @@ def programs(tier, seed):
             q["name"] = "base/%s/%s" % (lay, "data-entry" if ed else "plain-entry")
             ps.append(q)
             k += 1
+    # a second export in the same process after only the path variables of the data functions changed (module reloaded)
+    for lay in ("three", "one"):
+        for style in ("var", "pathlib"):
+            q = progs.base_program("g%d" % k, layout=lay)
+            k += 1
+            for nm in ("B", "C", "EMS"):
+                q["fns"][q["_ids"][nm]]["path_style"] = style
+                q["fns"][q["_ids"][nm]]["path_name"] = "PATH_OF_" + nm  # the variable keeps its name when its value changes
+            q["name"] = "moved-data-paths-second-export/%s/%s" % (lay, style)
+            old = gen.clone(q)
+            for nm in ("B", "C", "EMS"):
+                old["fns"][old["_ids"][nm]]["data_path"] += "_old"
+            old["_export_too"] = True
+            q["_pre_program"] = old
+            ps.append(q)
     # nesting depth 1-4 chains, shared sub-nodes, twins, loads
     for depth in (1, 2, 3, 4):
         q = gen.new_program("g%d" % k)
@@ -372,7 +392,7 @@ def run(tier, seed):
     rep.rule = (
         "programs: matrix skeletons (2 layouts x plain/data entry), keep chains of nesting depth 1-4 with a shared data function, the same function kept under two paths, run-time-argument chains, "
         "loads by kept functions (own body / helper / top level; producer in the same or an earlier evaluation) and random DAG programs; each evaluated with and without dds_export_graph=<file>.plain "
-        "(also restricted to the analysis stage); the file is parsed back and compared with the generator's ground truth (kept paths, first-level keep reachability, loads). "
+        "(also restricted to the analysis stage; also as the second export of a process that first exported the same program with other data-function path variables); the file is parsed back and compared with the generator's ground truth (kept paths, first-level keep reachability, loads). "
         "distinct_nontrivial = distinct programs with >=2 nodes and >=1 dependency whose graph was checked."
     )
     jobs = []
@@ -380,6 +400,8 @@ def run(tier, seed):
         pre = None
         if p.get("_pre_entry"):
             pre = dict(gen.clone(p), entry=p["_pre_entry"])
+        if p.get("_pre_program"):
+            pre = p.pop("_pre_program")
         jobs.append((p, pre, None, "local"))
         if i % 3 == 0:
             jobs.append((p, pre, ["analysis"], "memory"))
